@@ -275,6 +275,11 @@ func Generate(r *sim.Rng, prop, tier string, idx int) *sim.Case {
 			if r.Chance(1, 7) {
 				c.Faults = append(c.Faults, sim.Fault{Seam: "loader", Kind: "fail", Node: k, Ord: int64(att)})
 			}
+			if c.Knobs["flavor"] == 2 && r.Chance(1, 4) {
+				// a slow creation: the item may be past its expiry by the time it is handed out
+				// (it is still the value of this call; staleness is judged at the start of a call)
+				c.Faults = append(c.Faults, sim.Fault{Seam: "loader", Kind: "sleep", Node: k, Ord: int64(att), D: int64(sim.Pick(r, time.Millisecond, 20*time.Millisecond, 150*time.Millisecond, 2*time.Second))})
+			}
 			if c.Knobs["flavor"] == 2 && r.Chance(1, 2) {
 				c.Faults = append(c.Faults, sim.Fault{Seam: "loader", Kind: "ttl", Node: k, Ord: int64(att), D: int64(sim.Pick(r, 10*time.Millisecond, 100*time.Millisecond, time.Second, -time.Millisecond, time.Duration(TTLYear2500), time.Duration(TTLYear9999), time.Duration(TTLZeroTime), 290*365*24*time.Hour))})
 			}
